@@ -201,6 +201,9 @@ func runWorker(a lib.Args, wi int) {
 			runFallback(w, k == 1, genThetaBase(r))
 		}
 	}
+	if a.Replay == "" && (wi == 4 || wi == 5) {
+		runMulti(w, time.Duration(2+wi)*time.Second+time.Duration(wi)*1234567)
+	}
 	if a.Replay == "" {
 		w.Case("c03.kstamps", "", lib.V(lib.I(nAttempts), lib.I(nFbTx), lib.I(nFbRx)), "")
 	}
@@ -605,8 +608,13 @@ func runHistory(w *lib.Writer, hs *histScript) bool {
 				if d.junk {
 					ds = append(ds, lib.L("0"))
 				} else {
+					dcrx := crx
+					if hs.scion && hs.tsopt != 0 {
+						// the receive time is an input here: the timestamp option of this datagram
+						dcrx = ns(d.sendReal)
+					}
 					ds = append(ds, lib.L("1", lib.U(uint64(d.pkt.LVM)), lib.U(uint64(d.pkt.Stratum)),
-						t64s(d.pkt.OriginTime), t64s(d.pkt.ReceiveTime), t64s(d.pkt.TransmitTime), lib.I(crx)))
+						t64s(d.pkt.OriginTime), t64s(d.pkt.ReceiveTime), t64s(d.pkt.TransmitTime), lib.I(dcrx)))
 				}
 			}
 			attIn = append(attIn, lib.L(lib.I(ns(at.now0.val)), lib.I(ns(ctx1)), lib.L(ds...)))
@@ -766,4 +774,75 @@ func runFallback(w *lib.Writer, scn bool, theta time.Duration) {
 		lib.I(ns(at.now0.real)), lib.I(ns(hd.srx)), lib.I(ns(hd.stx)), lib.I(int64(hd.theta)), lib.I(ns(at.end)))
 	outs := lib.V(lib.I(ns(f.t0)), lib.I(ns(f.t1)), lib.I(ns(f.t2)), lib.I(ns(f.t3)), lib.I(int64(off)), lib.I(late), lib.I(errAbs))
 	w.Case("c03.fallback", tags, args, outs)
+}
+
+// c03.multi: MeasureClockOffsetSCION with two clients and two paths, one of which
+// leads to a next hop that answers every request with garbage at once, so that
+// this client's failure is reported before the other client's measurement
+// (whose replies the peer delays).  The offset reported for the round must be
+// the one successful measurement.
+func runMulti(w *lib.Writer, theta time.Duration) {
+	bad, err := net.ListenUDP("udp", &net.UDPAddr{IP: localAddr.IP})
+	if err != nil {
+		panic(err)
+	}
+	defer bad.Close()
+	go func() {
+		buf := make([]byte, 2048)
+		for {
+			_, from, err := bad.ReadFromUDPAddrPort(buf)
+			if err != nil {
+				return
+			}
+			bad.WriteToUDPAddrPort([]byte{1, 2, 3}, from)
+			bad.WriteToUDPAddrPort([]byte{4, 5, 6, 7}, from)
+		}
+	}()
+	act := action{kind: aNormal, theta: [2]time.Duration{theta, theta}, fwd: [2]time.Duration{15 * time.Millisecond, 0}}
+	hs := &histScript{scion: true, im: true, calls: []callScript{{acts: []action{act, act, act}}}}
+	cs := []*client.SCIONClient{
+		{Log: log1, InterleavedMode: true, Filter: recFilter{}},
+		{Log: log1, InterleavedMode: true, Filter: recFilter{}},
+	}
+	rec.snap = func() prevSnap { return prevSnap{} }
+	thePeer.begin(hs)
+	thePeer.setCall(0)
+	rec.take()
+	la := udp.UDPAddr{IA: theIA, Host: &net.UDPAddr{IP: append(net.IP(nil), localAddr.IP...)}}
+	ps := []snet.Path{
+		spath.Path{Src: theIA, Dst: theIA, DataplanePath: spath.Empty{}, NextHop: thePeer.addr(0)},
+		spath.Path{Src: theIA, Dst: theIA, DataplanePath: spath.Empty{}, NextHop: bad.LocalAddr().(*net.UDPAddr)},
+	}
+	sctx := &scriptCtx{wait: func() time.Duration { return longWait }}
+	start := realNow()
+	ts, off, merr := client.MeasureClockOffsetSCION(sctx, log0, cs, la, scionRemote(0), ps)
+	end := realNow()
+	evs := rec.take()
+	var last *event
+	nfail := 0
+	for i := range evs {
+		if evs[i].kind == evFilter {
+			last = &evs[i]
+		}
+		if evs[i].kind == evLog && evs[i].logger == 0 && evs[i].level >= slog.LevelInfo {
+			nfail++
+		}
+	}
+	time.Sleep(5 * time.Millisecond)
+	thePeer.mu.Lock()
+	defer thePeer.mu.Unlock()
+	if last == nil || nfail < 3 {
+		fmt.Printf("NOTE c03.multi: no measurement on the good path or no failure on the other (%d failures)\n", nfail)
+		return
+	}
+	var xds []string
+	for _, hd := range thePeer.h.handlings {
+		xds = append(xds, lib.L(lib.I(ns(start)), lib.I(ns(hd.srx)), lib.I(ns(hd.stx)), lib.I(int64(hd.theta)), lib.I(ns(end))))
+	}
+	okv, tsn := merr == nil, int64(0)
+	if !ts.IsZero() {
+		tsn = ns(ts)
+	}
+	args := lib.V(lib.I(ns(last.t0)), lib.I(ns(last.t1)), lib.I(ns(last.t2)), lib.I(ns(last.t3)), lib.L(xds...))
+	w.Case("c03.multi", "multi,nt", args, lib.V(lib.Bool(okv), lib.I(int64(off)), lib.I(tsn)))
 }
